@@ -241,6 +241,12 @@ def run(prog, chk):
     if rewind_rule(prog, r11) < 1:
         raise Broken("no rewind of next_char to text_start found outside the refill functions")
 
+    r15 = chk.rule("R15-line-advance-by-class", "the line counter advances only where the character was found to be of the end-of-line "
+                   "class (case label or comparison with EOL_CLASS), never under a test against particular characters alone",
+                   primary=False, floor=3)
+    if line_advance_by_class(prog, r15) < 3:
+        raise Broken("fewer than 3 expansions of POSN_INCLINE found")
+
     r14 = chk.rule("R14-partial-packet-recovery-starts-at-the-missing-column", "between the report of CIF_PARTIAL_PACKET and the first "
                    "use of the column variable as an index, that variable is not advanced: the documented recovery fills every "
                    "column from the first one without a value", primary=False, floor=1)
@@ -687,3 +693,65 @@ def partial_packet_recovery(prog, rule):
 def show_(n):
     from ..facts import show
     return show(n)[:60]
+
+
+def line_advance_by_class(prog, rule):
+    """R15: the line counter advances (POSN_INCLINE: line += n, column = 0) only where the character was found to belong to the
+    end-of-line *class* - a `case EOL_CLASS` of a switch on the class, or a comparison of the class with EOL_CLASS.  A test
+    against particular characters (`c == UCHAR_NL`) misses the characters the extra_eol_chars option puts into that class,
+    which every other scan function honours."""
+    from .. import loops
+    n = 0
+    for fn in prog.all_functions():
+        if fn.unit != "parser.c":
+            continue
+        heads = {b.id for b in fn.blocks.values() if b.term and b.term.get("k") == "SwitchStmt"}
+        sites = []
+        for (b, i, r, x) in fn.eval_sites("asg"):
+            if "POSN_INCLINE" in (x.get("ms") or []) and (path(strip(x.get("lhs"))) or "").endswith("line") and x.get("op") == "+=":
+                sites.append((b, x))
+        for (b, x) in sites:
+            n += 1
+            key = "%s:L%s" % (fn.name, x.get("l"))
+            ok = False
+            for lab in fn.blocks.values():
+                if lab.label and lab.label.get("k") == "case" and "EOL_CLASS" in (lab.label.get("ms") or []):
+                    if lab.id == b.id or b.id in cfgq.reach(fn, [lab.id], barrier_blocks=heads):
+                        ok = True
+            frontier = {b.id}
+            char_test = None
+            for depth in range(5):
+                if ok:
+                    break
+                nxt = set()
+                for tb in fn.blocks.values():
+                    if len(tb.succs) != 2 or tb.id in frontier:
+                        continue
+                    t, f = loops.control_dependents(fn, tb.id)
+                    side = "true" if (frontier & t) and not (frontier & f) else ("false" if (frontier & f) and not (frontier & t) else None)
+                    if side is None:
+                        continue
+                    cnd = cfgq.cond_of(fn, tb)
+                    c = strip(cnd) if cnd is not None else None
+                    if isinstance(c, dict) and c.get("k") == "bin" and c.get("op") in ("==", "!="):
+                        consts = [y for y in (strip(c.get("lhs")), strip(c.get("rhs"))) if isinstance(y, dict) and const(y) is not None]
+                        if any("EOL_CLASS" in (y.get("ms") or []) for y in consts) and ((c["op"] == "==") == (side == "true")):
+                            ok = True
+                            break
+                        if any(set(y.get("ms") or []) & {"UCHAR_NL", "UCHAR_CR"} for y in consts) and char_test is None \
+                                and "POSN_INCLINE" not in (c.get("ms") or []) and "HANDLE_EOL" not in (c.get("ms") or []):
+                            char_test = c
+                    nxt.add(tb.id)
+                frontier = nxt
+                if not frontier:
+                    break
+            if ok:
+                rule.ok(key, "under a test of the character's class against EOL_CLASS")
+            elif char_test is not None:
+                rule.violation(fn.file, fn.name, x.get("l"), "line-advance-by-character:%s" % fn.name,
+                               "the line counter advances under `%s` (L%s), a test against one character, and under no test of the "
+                               "character's class: the end-of-line characters of the extra_eol_chars option do not end a line here, "
+                               "so line numbers, columns and the over-length check go wrong" % (show_(char_test), char_test.get("l")))
+            else:
+                rule.info(key, "no controlling test recognised: no verdict")
+    return n
